@@ -570,8 +570,18 @@ def run(ctx):
         ini = GA.methods["__init__"]
         Sx = ScalarSym(sp, spd, m)
         me, va = pos("mean_"), pos("var_")
-        th = Sx.ev(_first(ini.node, "theta", 0), {"var": va, "mean": me}, {})
-        al = Sx.ev(_first(ini.node, "alpha", 0), {"mean": me, "theta": th}, {})
+        env_ = {"var": va, "mean": me}
+        th = al = None
+        for _ in range(2):  # either may be written in terms of the other
+            for nm_ in ("theta", "alpha"):
+                if env_.get(nm_) is None:
+                    try:
+                        env_[nm_] = Sx.ev(_first(ini.node, nm_, 0), dict(env_), {})
+                    except NotUnderstood:
+                        env_.pop(nm_, None)
+        th, al = env_.get("theta"), env_.get("alpha")
+        if th is None or al is None:
+            raise NotUnderstood("(mean, var) branch: theta / alpha not expressed in mean and var")
         ok = sp.simplify(al * th - me) == 0 and sp.simplify(al * th ** 2 - va) == 0
         th2 = Sx.ev(_first(ini.node, "theta", 1), {"beta": pos("beta")}, {})
         ok = ok and sp.simplify(th2 - 1 / pos("beta")) == 0
@@ -634,3 +644,75 @@ def _first(fn_node, target, idx):
     if len(hits) <= idx:
         raise NotUnderstood(f"{idx + 1}. assignment to {target} not found")
     return hits[idx]
+
+
+def r30_3(ctx, m):
+    """tabulated quantiles: the table reaches the upper end of its range"""
+    ctx.rule("R30.3", "interpolated prior transforms: the tabulation nodes cover [xmin, xmax] - they are np.arange(xmin, xmax + step, "
+                      "step) / np.linspace(xmin, xmax, num); a node count obtained by truncating a float quotient (int((xmax - xmin) "
+                      "/ step)) can fall one step short of xmax, and the interpolation clamps beyond the last node", floor=1)
+    fi = m.func(SD, "interpolator", required=False)
+    if fi is None:
+        ctx.und("R30.3", f"{SD}::interpolator", "function missing", SD)
+        return
+    ctx.saw_func(fi)
+    from ..util import cfg_of
+    from ..terms import inline_at
+    cfg = cfg_of(fi)
+    rd = cfg.reaching_defs(fi.params())
+    defs = [n for n in cfg.nodes if n.kind == "stmt" and isinstance(n.ast, ast.Assign) and isinstance(n.ast.targets[0], ast.Name)
+            and any(isinstance(c, ast.Call) and call_name(c) in ("arange", "linspace") for c in ast.walk(n.ast.value))]
+    if not defs:
+        ctx.und("R30.3", f"{fi.key}::tabulation nodes", "no arange/linspace node table found", fi)
+    for n in defs:
+        e = inline_at(cfg, rd, n.id, n.ast.value, depth=3)
+        t = src(e).replace(" ", "")
+        key = f"{fi.key}::`{short(n.ast, 60)}` reaches xmax"
+        if t in ("np.arange(xmin,xmax+step,step)", "np.arange(xmin,step+xmax,step)") or t.startswith("np.linspace(xmin,xmax,"):
+            ctx.ok("R30.3", key, t, fi, n.ast)
+        elif any(isinstance(c, ast.Call) and src(c.func) == "int" and c.args and isinstance(c.args[0], ast.BinOp) and isinstance(c.args[0].op, ast.Div)
+                 for c in ast.walk(e)):
+            ctx.bad("R30.3", key, f"`{src(e)}`: int() truncates the float quotient (16.4/0.1 = 163.99999999999997 -> 163): the last node lies one step below xmax", fi, n.ast)
+        else:
+            ctx.und("R30.3", key, f"`{src(e)}` not recognised", fi, n.ast)
+
+
+def r30_4(ctx, m):
+    """moment conversions are pure functions of their arguments"""
+    ctx.rule("R30.4", "lognormal_moments (both APIs) and value_reshaper never modify their arguments in place: no augmented assignment, "
+                      "subscript store or out= targets a parameter or a name bound to value_reshaper(parameter), which returns the "
+                      "caller's own array when the shape already fits - a second model built from the same arrays would otherwise see "
+                      "different numbers", floor=2)
+    for modn, fname in ((UT, "lognormal_moments"), (UT, "value_reshaper"), (PR, "lognormal_moments"), ("nifty.re.num.stats_distributions", "lognormal_moments")):
+        fi = m.func(modn, fname, required=False)
+        if fi is None:
+            continue
+        ctx.saw_func(fi)
+        tainted = set(fi.params())
+        for st in walk_no_nested(fi.node):
+            if isinstance(st, ast.Assign) and isinstance(st.value, (ast.GeneratorExp, ast.Tuple, ast.Call)) and "value_reshaper" in src(st.value):
+                for t in ast.walk(st.targets[0]):
+                    if isinstance(t, ast.Name):
+                        tainted.add(t.id)
+        bad = []
+        for st in walk_no_nested(fi.node):
+            if isinstance(st, ast.AugAssign):
+                tg = st.target
+                base = tg.value if isinstance(tg, ast.Subscript) else tg
+                if isinstance(base, ast.Name) and base.id in tainted:
+                    bad.append(st)
+            elif isinstance(st, ast.Assign) and isinstance(st.targets[0], ast.Subscript) and isinstance(st.targets[0].value, ast.Name) and st.targets[0].value.id in tainted:
+                bad.append(st)
+            elif isinstance(st, ast.Call) and any(k.arg == "out" and isinstance(k.value, ast.Name) and k.value.id in tainted for k in st.keywords):
+                bad.append(st)
+        ctx.check("R30.4", f"{fi.key}::arguments are not modified in place", not bad,
+                  f"`{src(bad[0])}` writes into an array the caller still owns" if bad else None, fi, bad[0] if bad else None)
+
+
+_run_c30c = run
+
+
+def run(ctx):  # noqa: F811
+    _run_c30c(ctx)
+    r30_3(ctx, ctx.model)
+    r30_4(ctx, ctx.model)
